@@ -183,6 +183,32 @@ CHECKS = {
         technique="TLA+ transcription of stub generation + parameter grammar, TLC invariants; case replay with ast abstraction; TLC trace validation",
         design="5/C20",
     ),
+    "C11": dict(
+        engine="ConfigMachine",
+        text="TLC checks C11_ReturnImplies (a load or validate that returns implies every required field of every enabled "
+        "(sub)configuration is set and non-empty and every validator of every enabled (sub)configuration was invoked and "
+        "passed), C11_CollectIffRaise and C11_ItemsHeld on ConfigMachine with instance SchemaV (required fields with and without "
+        "defaults, a field validator, schema validators at three depths incl. a config type, a feature-flagged sub-configuration, "
+        "a list of configurations whose schema has a validator); the conformance step registers logging validators and compares "
+        "the set of (configuration path, validator) invocations and the outcome of every load / validate / collecting validate.",
+        note="Bounded instance and candidate pools; the specification models the order of validation (fields in declaration order, "
+        "nested configurations completely, then schema validators; first failure ends the run) and that validating a list of "
+        "configurations does not descend into its items.",
+        technique="TLA+ model of Schema._validate with an invocation log + TLC invariants; replay with logging validators; TLC trace validation",
+        design="5/C11",
+    ),
+    "C14": dict(
+        engine="EnvMachine",
+        text="TLC checks C14_Name (the variable name stated declaratively - explicit, or upper-cased keys below the nearest "
+        "configuring schema joined by '_' - against the top-down derivation), C14_EnvWins, C14_InvalidFailsBuild, C14_AssignWins "
+        "and C14_NoBinding on EnvMachine over the full 4x4 setting matrix at depths 1-3 (1024 schemas; 192 in the quick tier) x "
+        "three process environments (valid / invalid / empty / unset per derived name) x histories of build, load, assign, reset; "
+        "every transition is replayed on real schemas built top-down under the same os.environ.",
+        note="Environment fixed within a behaviour; list/dict/challenge-default fields do not read variables in cincoconfig and are "
+        "outside the family.",
+        technique="TLA+ machine over a schema family x environment profiles + TLC invariants/action properties; transition replay under real os.environ",
+        design="5/C14",
+    ),
 }
 
 PENDING_REASON = "check not built yet in this round (planned, see DESIGN.md section 5); nothing is claimed for it"
